@@ -15,6 +15,7 @@ All statements are for data sets of any size over any linearly ordered field.
 -/
 import ZepidVerif.Lemmas.Relabel
 import ZepidVerif.Lemmas.Msm
+import ZepidVerif.Lemmas.TmleFlip
 import ZepidVerif.Props.C07
 import Mathlib.Algebra.Order.Field.Rat
 import Mathlib.Tactic.NormNum
@@ -628,6 +629,58 @@ theorem iptw_msm_relabel (l : List (Row F)) (stab : Bool) (t : Tgt) (n p mw : Ro
     exact (msm_affine c d (Ci.msmRows l ω) h1 h0).2
 
 
+/-! ### TMLE: the whole targeting step under `A ↦ 1 − A`
+
+`ZV.Tmle` (Model/Tmle.lean) is `TMLE.fit` from the clever covariates on; `Props/C03_Gen.lean` proves the definition
+regenerated from the text of `TMLE.fit` equal to it (`Props/C08_Gen.lean` restates the theorem below for the generated
+definition).  The recoded problem has the same outcomes and the nuisance values of the recoded fits, `g1 ↔ g0`,
+`Q1 ↔ Q0` (`Tmle.flipT`; that the external fits deliver them is `score_reparam` + gate H).  With the code's clever
+covariates `H1 = A/g1`, `H0 = −(1−A)/g0` one gets `H1' = −H0`, `H0' = −H1`, `QAW' = QAW`: the fluctuation
+coefficients of the recoded problem are `(ε₁', ε₂') = (−ε₂, −ε₁)`.  `σ` (inverse logit) and `lg` (logit) are arbitrary
+functions here: nothing about them is used. -/
+
+/-- **tmle_flip_scores.**  `(ε₁, ε₂)` solves the two score equations of the fluctuation GLM for
+    `(A, Y, g1, g0, Q1, Q0)` iff `(−ε₂, −ε₁)` solves them for `(1 − A, Y, g0, g1, Q0, Q1)` (the two scores are
+    exchanged and change sign); the fluctuation model's own prediction of every row is unchanged and the two
+    targeted counterfactual predictions are exchanged, `Q*₁' = Q*₀`, `Q*₀' = Q*₁`. -/
+theorem tmle_flip_scores (σ lg : F → F) (e1 e2 : F) (l : List (Tmle.TRow F)) :
+    (Tmle.scoreH1 σ lg (-e2) (-e1) (l.map Tmle.flipT) = - Tmle.scoreH0 σ lg e1 e2 l ∧
+     Tmle.scoreH0 σ lg (-e2) (-e1) (l.map Tmle.flipT) = - Tmle.scoreH1 σ lg e1 e2 l) ∧
+    ((Tmle.scoreH1 σ lg e1 e2 l = 0 ∧ Tmle.scoreH0 σ lg e1 e2 l = 0) ↔
+     (Tmle.scoreH1 σ lg (-e2) (-e1) (l.map Tmle.flipT) = 0 ∧ Tmle.scoreH0 σ lg (-e2) (-e1) (l.map Tmle.flipT) = 0)) ∧
+    (∀ r, Tmle.h1 (Tmle.flipT r) = - Tmle.h0 r ∧ Tmle.h0 (Tmle.flipT r) = - Tmle.h1 r ∧
+      Tmle.qstarA σ lg (-e2) (-e1) (Tmle.flipT r) = Tmle.qstarA σ lg e1 e2 r ∧
+      Tmle.qstar1 σ lg (-e2) (Tmle.flipT r) = Tmle.qstar0 σ lg e2 r ∧
+      Tmle.qstar0 σ lg (-e1) (Tmle.flipT r) = Tmle.qstar1 σ lg e1 r) := by
+  have h1 := Tmle.scoreH1_flip σ lg e1 e2 l
+  have h0 := Tmle.scoreH0_flip σ lg e1 e2 l
+  refine ⟨⟨h1, h0⟩, ?_, fun r => ⟨Tmle.h1_flip r, Tmle.h0_flip r, Tmle.qstarA_flip σ lg e1 e2 r,
+    Tmle.qstar1_flip σ lg e2 r, Tmle.qstar0_flip σ lg e1 r⟩⟩
+  rw [h1, h0, neg_eq_zero, neg_eq_zero]
+  exact and_comm
+
+/-- **tmle_flip.**  Everything `TMLE.fit` reports for a binary outcome, at corresponding fluctuation coefficients
+    (`tmle_flip_scores`): the vector of targeted predictions under the observed treatment is unchanged, the two
+    counterfactual vectors are exchanged, the risk difference is negated, the risk ratio and the odds ratio are
+    inverted, and the three influence-curve standard errors — of RD, of log RR, of log OR — are unchanged (each
+    influence value changes sign row by row).  Missing outcomes (`obs = false`) included. -/
+theorem tmle_flip (σ lg : F → F) (e1 e2 : F) (l : List (Tmle.TRow F)) :
+    let f := Tmle.fitBinary σ lg e1 e2 l
+    let f' := Tmle.fitBinary σ lg (-e2) (-e1) (l.map Tmle.flipT)
+    f'.sA = f.sA ∧ f'.s1 = f.s0 ∧ f'.s0 = f.s1 ∧
+    f'.rd = - f.rd ∧ f'.rdSe = f.rdSe ∧ f'.rr = f.rr⁻¹ ∧ f'.rrSe = f.rrSe ∧ f'.or_ = f.or_⁻¹ ∧ f'.orSe = f.orSe :=
+  Tmle.fitBinary_flip σ lg e1 e2 l
+
+/-- **tmle_flip_continuous.**  Continuous outcome (bounded to the unit interval, mapped back with the generated
+    `tmle_unit_unbound`; the bounds `mini`, `maxi` do not depend on the treatment coding): the average treatment
+    effect is negated and its influence-curve standard error is unchanged. -/
+theorem tmle_flip_continuous (σ lg : F → F) (e1 e2 mini maxi : F) (l : List (Tmle.TRow F)) :
+    let f := Tmle.fitContinuous σ lg e1 e2 mini maxi l
+    let f' := Tmle.fitContinuous σ lg (-e2) (-e1) mini maxi (l.map Tmle.flipT)
+    f'.sA = f.sA ∧ f'.s1 = f.s0 ∧ f'.s0 = f.s1 ∧ f'.rd = - f.rd ∧ f'.rdSe = f.rdSe :=
+  Tmle.fitContinuous_flip σ lg e1 e2 mini maxi l
+
+
 /-! ### Closed-form g-estimation of a structural nested mean model -/
 
 /-- **snm_affine.**  `ψ` solves the estimating equations `Σ w(A−π)V_k (Y − A Σ_j ψ_j V_j) = 0` for the outcome
@@ -843,6 +896,27 @@ example :
     Ci.msmRows exRows (iptwOmega false Tgt.pop (fun _ => 1/2) (fun r => if r.s = 0 then 2/5 else 1/4) (fun _ => 1))
       = [⟨true, 3, 5/2⟩, ⟨false, 1, 5/3⟩, ⟨true, 5, 8⟩, ⟨false, 2, 4/3⟩, ⟨false, 4, 4/3⟩, ⟨true, 1, 5/2⟩] := by
   simp [Ci.msmRows, exRows, iptwOmega, Gen.iptw_weight, Tgt.str]
+  norm_num
+
+-- TMLE targeting under 1−A: g1 ≠ g0, Q1 ≠ Q0, one missing outcome; with σ = lg = id the coefficients
+-- (ε₁, ε₂) = (11/75, −9/50) solve both score equations, (−ε₂, −ε₁) = (9/50, −11/75) those of the recoded rows;
+-- RD = 1/6 becomes −1/6 and RR = 4/3 becomes 3/4
+def exT : List (Tmle.TRow ℚ) :=
+  [⟨true, true, 1, 3/10, 1/5, 2/5, 3/5⟩, ⟨true, true, 1, 3/10, 1/5, 2/5, 3/5⟩, ⟨true, true, 0, 3/10, 1/5, 2/5, 3/5⟩,
+   ⟨false, true, 1, 3/10, 1/5, 2/5, 3/5⟩, ⟨false, true, 0, 3/10, 1/5, 2/5, 3/5⟩,
+   ⟨true, false, 0, 3/10, 1/5, 2/5, 3/5⟩]
+example : Tmle.scoreH1 id id (11/75) (-9/50) exT = 0 ∧ Tmle.scoreH0 id id (11/75) (-9/50) exT = 0 ∧
+    Tmle.scoreH1 id id (9/50) (-11/75) (exT.map Tmle.flipT) = 0 ∧
+    Tmle.scoreH0 id id (9/50) (-11/75) (exT.map Tmle.flipT) = 0 := by
+  simp only [Tmle.scoreH1, Tmle.scoreH0, exT, Tmle.flipT, Tmle.obsRows, List.filter, List.map, sumBy, Tmle.qstarA,
+    Tmle.h1, Tmle.h0, Tmle.qa, Tmle.ind, id]
+  norm_num
+example : Tmle.rdOf (Tmle.targets id id (11/75) (-9/50) exT) = 1/6 ∧
+    Tmle.rdOf (Tmle.targets id id (9/50) (-11/75) (exT.map Tmle.flipT)) = -1/6 ∧
+    Tmle.rrOf (Tmle.targets id id (11/75) (-9/50) exT) = 4/3 ∧
+    Tmle.rrOf (Tmle.targets id id (9/50) (-11/75) (exT.map Tmle.flipT)) = 3/4 := by
+  simp only [Tmle.rdOf, Tmle.rrOf, Tmle.risk1Of, Tmle.risk0Of, Tmle.mean, Tmle.targets, exT, Tmle.flipT, List.map,
+    List.length, sumBy, Tmle.qstar1, Tmle.qstar0, id]
   norm_num
 
 -- g-estimation: a data set whose exposure model (intercept only, π = 1/2) satisfies its score equation; ψ = 2
